@@ -28,7 +28,7 @@ pub fn one_scenario(rep: &Report, idx: usize, sc: &Scenario, keep: bool) -> Opti
         // Engine A: the real CLI against the scripted server (or local archive: reads
         // recorded as information only).
         cc::prepare_output(&b, sc);
-        let o = cc::run_clone(&dir, &b, sc, "clone", &Faults::default());
+        let o = cc::run_clone(&dir, &b, sc, "clone", &Faults { pacing: (idx % 4) as u8, ..Default::default() });
         rep.eval();
         if o.exit == Exit::Timeout {
             rep.inconclusive("watchdog");
